@@ -58,7 +58,9 @@ def rustc(src_path, rmeta, edition="2024"):
         ids = re.findall(r"`([^`]+)`", m["message"])
         sp = [s for s in m.get("spans", []) if s.get("is_primary")]
         line = sp[0]["line_start"] if sp else 0
-        diags.append({"code": code, "message": m["message"][:160], "idents": ids, "line": line})
+        # the source text the compiler points at (primary span first, then the secondary ones)
+        text = " ".join(t["text"] for s_ in sp + [x for x in m.get("spans", []) if not x.get("is_primary")] for t in s_.get("text", []))
+        diags.append({"code": code, "message": m["message"][:160], "idents": ids, "line": line, "span_text": text[:600]})
     return r.returncode == 0, diags
 
 def predict(scopes, M):
@@ -97,14 +99,22 @@ def predict(scopes, M):
             for n in names:
                 if M[n].get("rpre") == "1":
                     R.append({"reason": "rust-prelude-shadow", "ident": M[n]["rcamel"], "names": [n], "scope": s["owner"]})
+                if M[n].get("rgp") == "1":
+                    R.append({"reason": "rust-generic-param-shadow", "ident": M[n]["rcamel"], "names": [n], "scope": s["owner"]})
         if kind == "params":
             for n in names:
                 if M[n].get("rtemp") == "1":
                     R.append({"reason": "rust-temp-shadows-param", "ident": M[n]["rust"], "names": [n], "scope": s["owner"]})
     return R
 
+def mentions(diag, ident):
+    """the predicted identifier occurs, as a whole token, in the diagnostic message or in the source text it points at"""
+    pat = re.compile(r"(?<![A-Za-z0-9_])" + re.escape(ident) + r"(?![A-Za-z0-9_])")
+    return ident in diag["idents"] or bool(pat.search(diag.get("span_text", ""))) or bool(pat.search(diag["message"]))
+
 def explain(diag, reasons):
-    """the predicted reason that accounts for this diagnostic, if any"""
+    """the predicted reason that accounts for this diagnostic, if any.  Every rule requires the first failing
+    diagnostic to name the predicted identifier (in its message or in the source span it points at)."""
     msg, code, ids = diag["message"], diag["code"], diag["idents"]
     if "expected identifier, found" in msg and "keyword" in msg:
         for r in reasons:
@@ -112,7 +122,7 @@ def explain(diag, reasons):
     if code in ("syntax", "E0642", "E0424", "E0433", "E0423", "E0531", "E0532"):
         # a keyword in identifier position derails the parser / resolver in other ways too (`mut: u32`, `ref: T`, `crate: u32`, `self`)
         for r in reasons:
-            if "keyword" in r["reason"]: return r
+            if "keyword" in r["reason"] and mentions(diag, r["ident"]): return r
     if code in DUP_CODES or "defined multiple times" in msg or "more than once" in msg or "duplicate definitions" in msg:
         for r in reasons:
             if r["reason"] in ("rust-camel-digit-merge", "rust-dup-snake", "rust-dup-shouty", "case-only-collision") and \
@@ -126,14 +136,11 @@ def explain(diag, reasons):
     if code == "unused_variables" or msg.startswith("unused variable"):
         for r in reasons:
             if r["reason"] == "rust-temp-shadows-param" and r["ident"] in ids: return r
-    if code.startswith("E0"):      # a captured prelude name surfaces as a resolution or type error somewhere in the module
+    if code.startswith("E0"):
+        # a captured prelude name surfaces as a resolution or type error where the generated code uses that name;
+        # a shadowing temporary of another type as a type error where the parameter is used
         for r in reasons:
-            if r["reason"] == "rust-prelude-shadow" and (r["ident"] in ids or r["ident"] in msg or code in
-               ("E0107", "E0308", "E0404", "E0405", "E0412", "E0423", "E0532", "E0574", "E0618", "E0599", "E0277", "E0191", "E0164")):
-                return r
-    if code in ("E0308", "E0599", "E0277", "E0606", "E0605", "E0609", "E0614", "E0369"):   # the shadowing temporary has another type
-        for r in reasons:
-            if r["reason"] == "rust-temp-shadows-param": return r
+            if r["reason"] in ("rust-prelude-shadow", "rust-generic-param-shadow", "rust-temp-shadows-param") and mentions(diag, r["ident"]): return r
     return None
 
 def systematic_worlds(rng):
